@@ -16,7 +16,22 @@ the payment's session privs and pending amount — translated from the Rust text
   * `check_retry_payments`: the retry test `pending_amt_msat < total_msat` and the retried value;
   * `find_route_and_send_payment`: the overflow test (`RETRY_OVERFLOW_PERCENTAGE`), the order
     overflow-test / `is_retryable_now` / insertion, and the `assert!(insert(..))`;
-  * `remove_outbound_if_all_failed` (probes): the kinds that drop the entry.
+  * `remove_outbound_if_all_failed` (probes): the kinds that drop the entry;
+  * the LIFE CYCLE of one payment (`lifecycle()` below; second half of the generated file):
+    `inductive Variant` (= the variants of `enum PendingOutboundPayment`, in order) and per-variant tables read from the
+    match arms of `remaining_parts` (`holdsParts`), `is_fulfilled`, `abandoned`, `is_pre_htlc_lock_in`, `mark_fulfilled`
+    (`markFulfilledTo`, swap keeps the session privs, `timer_ticks_without_htlcs: 0`), `mark_abandoned` (`markAbandonedTo`,
+    `markAbandonedRewrites`, `markAbandonedKeepsParts`), `remove` / `insert` (`removeHolds`, `insertAccepts`; debug_assert arms
+    = none), `Retry::is_retryable_now` (Attempts arm, `attemptsRetryable`), `is_retryable_now` / `is_auto_retryable_now`
+    (arm structure), `claim_htlc` (`claimSends`, `claimRemoves`, `claimPathOk`), `finalize_claims` (`finalizeAsserts`,
+    `finalizePathOk`), `fail_htlc` (order of the two early returns, `failAbandons`, `failReason`, `failDrops`,
+    `failPushesFailed`, `failPathEvent`, path failure pushed before the full failure), `abandon_payment` (`abandonArm`:
+    stored / argument reason, `abandonStoredTest`), `remove_stale_payments` (`staleArm`, `staleFulfilled`,
+    `staleTimerTicks`, `staleReason`), the final `retain` of `check_retry_payments` (`sweepAbandons`, `sweepReason`),
+    `insert_from_monitor_on_startup` (`startupArm`, `new_retryable!` fields).  Boolean / arithmetic tests go through
+    rs2lean's parse_expr/Emitter; the statement skeleton around them is matched by whitespace-insensitive templates (`T`).
+    Model/OutboundPay.lean CALLS these definitions; Proofs/OutboundPayRefine.lean proves the result equal to the previous
+    hand-written transition function (`stepP_eq_H`) — a changed table breaks a `tbl_*` lemma / that theorem.
 
 A per-path result `Result<(), APIError>` is abstracted to `PathRes := ok | mip | err`
 (`Ok(())`, `Err(APIError::MonitorUpdateInProgress)`, any other `Err`).  Anything that no longer has the
